@@ -154,6 +154,60 @@ def globalDestroy (s : State) : State × List Ev :=
   let r2 := destroy r1.1
   (r2.1, r1.2 ++ r2.2)
 
+/-! ### the global cache object and its allocator adaptor
+
+`GlobalSimpleStringCache()` saves SimpleString's current allocator as the adaptor's `originalAllocator_`,
+makes it the cache's underlying allocator (`SimpleStringCacheAllocator` constructor: `cache_.setAllocator`)
+and installs the adaptor as SimpleString's allocator.  The destructor re-installs the SAVED allocator
+whatever the current one is, and the cache keeps returning blocks to the allocator it was given. -/
+
+inductive AllocRef
+  | orig      -- the allocator that was current when the global cache was constructed
+  | cache     -- the global cache's SimpleStringCacheAllocator
+  | other     -- any allocator installed later by somebody else
+deriving Repr, DecidableEq, Inhabited
+
+def AllocRef.render : AllocRef → String
+  | .orig => "orig" | .cache => "cache" | .other => "other"
+
+structure GState where
+  cache      : State
+  strAlloc   : AllocRef      -- SimpleString::getStringAllocator()
+  saved      : AllocRef      -- SimpleStringCacheAllocator::originalAllocator_
+  underlying : AllocRef      -- SimpleStringInternalCache::allocator_
+deriving Repr, DecidableEq, Inhabited
+
+def gcreate (current : AllocRef) (tableId : Nat) : GState :=
+  { cache := (create tableId).1, strAlloc := .cache, saved := current, underlying := current }
+
+/-- somebody installs another string allocator while the global cache exists -/
+def gswap (g : GState) (a : AllocRef) : GState := { g with strAlloc := a }
+
+/-- `~GlobalSimpleStringCache()`: restore, clear, delete the adaptor (cache_.setAllocator(NULL)), then the
+    member cache's own destructor. Returns SimpleString's allocator afterwards, the cache state, the events. -/
+def gdestroy (g : GState) : AllocRef × State × List Ev :=
+  (g.saved, (globalDestroy g.cache).1, (globalDestroy g.cache).2)
+
+/-- `SimpleStringCacheAllocator::name()`, `alloc_name()`, `free_name()` given the names of the saved allocator -/
+def adaptorNames (origAllocName origFreeName : String) : List String :=
+  [Gen.Cache.adaptorName, origAllocName, origFreeName]
+
+/-- buffer size a `SimpleString` of `len` characters asks its allocator for (`StrLen + 1`) -/
+def stringBufferSize (len : Nat) : Nat := len + 1
+
+/-- `SimpleString::operator+=(const char*)`: the new buffer is obtained BEFORE the old one is released,
+    so the old buffer is never the one that is reused -/
+def stringAppend (s : State) (oldMem len k nodeId memId : Nat) : State × List Ev :=
+  let r1 := alloc s (stringBufferSize (len + k)) nodeId memId
+  let r2 := dealloc r1.1 oldMem (stringBufferSize len)
+  (r2.1, r1.2 ++ r2.2)
+
+/-- `hasFreeBlocksOfSize(size)` -/
+def hasFree (s : State) (size : Nat) : Bool :=
+  match s.classes[indexFor s.classes size]? with
+  | some c => !c.free.isEmpty
+  | none => false
+
 inductive Op
   | alloc (size nodeId memId : Nat)
   | dealloc (mem size : Nat)
